@@ -8,8 +8,8 @@ from .. import runner, explore, coll, gen
 from .c08 import canonical_docs
 from .c09 import run_collection
 
-RULE = ('(A) one canonical document per concrete class (25) + pretty-printed + Unicode/special-character variants x {file, str, '
-        'bytes, fake S3 object}: same class, same str(); documents stored in a declared ISO-8859-1 / UTF-16 / UTF-8 encoding with non-ASCII content x {bytes, file, S3 object}; (B) collections of <= 4 messages through the three constructors: '
+RULE = ('(A) one canonical document per concrete class (25) + pretty-printed + Unicode/special-character + white-space-padded roID/mosID variants x {file, str, '
+        'bytes, fake S3 object}: same class, same str(), and a MosReader over each (from_string / from_file / from_s3) reports the message ID, running-order ID and class of the object it restores; documents stored in a declared ISO-8859-1 / UTF-16 / UTF-8 encoding with non-ASCII content x {bytes, file, S3 object}; (B) collections of <= 4 messages through the three constructors: '
         'same merged str(mc); every reader reports message_id / ro_id / mos_type of the object it restores, two '
         'restorations are distinct objects with equal str(), equal to a direct parse of the original text; (C) bucket '
         'listings: every composition of k <= K keys into result pages x every subset of keys carrying the suffix x prefix '
@@ -45,6 +45,9 @@ def items_for(tier):
         items.append(('doc', cls, 'unicode', text.replace('<mosID>m.os</mosID>', f'<mosID>{gen.escape(uni)}</mosID>', 1)
                       .replace('<roID>RO1</roID>', f'<roID>RO1 {gen.escape(uni)}</roID>')))
         items.append(('doc', cls, 'xml-declaration', '<?xml version="1.0" encoding="UTF-8"?>\n' + text))
+        # the text of the envelope fields is surrounded by white space (a sender that puts text on its own line)
+        items.append(('doc', cls, 'padded-envelope', text.replace('<roID>RO1</roID>', '<roID>\n    RO1\n  </roID>')
+                      .replace('<mosID>m.os</mosID>', '<mosID> m.os </mosID>', 1)))
     # documents stored in a declared non-UTF-8 encoding (bytes / file / S3 object hold the same bytes)
     for cls in ('RunningOrder', 'StoryAppend', 'StorySend', 'EAItemInsert', 'RunningOrderReplace', 'MetaDataReplace'):
         text = canon[cls].replace('<mosID>m.os</mosID>', '<mosID>caf\u00e9 \u00a35</mosID>', 1)
@@ -106,6 +109,27 @@ def worker(ns, items, res, opts):
                         what = 'class' if v[0] != got['str'][0] else 'serialisation'
                         explore.add_simple_finding(res, prop, f'doc:{src}-vs-str:{what}:{variant}',
                                                    f'{cls} ({variant}): from {src} gives {v[0]}, from str {got["str"][0]}' + ('' if what == 'class' else '; str() differs'),
+                                                   document=text)
+                        break
+                # a collection reader over the same document reports what the object it restores reports
+                for how, fn in (('from_string', lambda: ns.mc.MosReader.from_string(text)),
+                                ('from_file', lambda: ns.mc.MosReader.from_file(path)),
+                                ('from_s3', lambda: ns.mc.MosReader.from_s3('b', 'k.mos.xml'))):
+                    if got['str'][0] != cls:
+                        break
+                    try:
+                        mr = fn()
+                        o = mr.mos_object
+                        said, has = (mr.message_id, mr.ro_id, mr.mos_type.__name__), (o.message_id, o.ro_id, type(o).__name__)
+                    except Exception as e:  # noqa
+                        explore.add_simple_finding(res, prop, f'doc-reader:{how}:raised:{type(e).__name__}:{variant}',
+                                                   f'{cls} ({variant}): MosReader.{how} raised {type(e).__name__}: {e}', document=text)
+                        break
+                    res.extra['doc_readers'] += 1
+                    if said != has or str(o) != got['str'][1]:
+                        explore.add_simple_finding(res, prop, f'doc-reader:{how}:{"metadata" if said != has else "restored-differs"}:{variant}',
+                                                   f'{cls} ({variant}): MosReader.{how} reports {said}, the object it restores has {has}'
+                                                   if said != has else f'{cls} ({variant}): the object restored by MosReader.{how} serialises differently from a direct read',
                                                    document=text)
                         break
             elif it[0] == 'bytesdoc':
